@@ -580,6 +580,7 @@ def validate_traces(module, consts, trace_paths, workdir, timeout=900):
     write_cfg(cfg, c)
     r = run_tlc(module, cfg, workdir, workers=1, timeout=timeout)
     txt = open(r.out_path).read()
+    r.drift = len(re.findall(r'<<\s*"DRIFT"', txt))
     m = re.search(r'<<\s*"REJECT",\s*"(.*?)"\s*>>', txt, re.S)
     if m:
         info = json.loads(json.loads('"' + m.group(1).replace("\n", "") + '"'))
